@@ -26,6 +26,9 @@ type History struct {
 	// TLS: the whole session runs inside a TLS session negotiated with SSLRequest (the server gets a
 	// certificate); what the protocol does must not depend on the transport.
 	TLS bool `json:"tls,omitempty"`
+	// Proto: protocol version word of the start-up packet (0 = 3.0). Only RunRaw honours it: the
+	// library does not interpret the version, and the grammar of what it sends holds for every value.
+	Proto uint32 `json:"proto,omitempty"`
 }
 
 // Outcome of playing a history.
@@ -199,6 +202,9 @@ func StartupBytes(h History, badPass bool) []byte {
 		user = h.Cfg.Auth.User
 	}
 	b := pgwire.Startup(script.DefaultPairs(user))
+	if h.Proto != 0 {
+		b = pgwire.Untyped(h.Proto, pgwire.StartupBody(script.DefaultPairs(user)))
+	}
 	if h.Cfg.Auth != nil {
 		p := h.Cfg.Auth.Pass
 		if badPass {
